@@ -685,10 +685,12 @@ func FilterEntities(node []*Node, query parser.Query) bool {
 		fmt.Println("Error evaluating expression: ", err)
 		return false
 	}
-	if output.(bool) { //nolint:all
-		return true
+	matched, isBool := output.(bool)
+	if !isBool {
+		fmt.Printf("Error evaluating expression: condition is not a boolean (got %T)\n", output)
+		return false
 	}
-	return false
+	return matched
 }
 
 func generateProxyEnvForSet(nodeSet []*Node, query parser.Query) map[string]interface{} {
